@@ -140,6 +140,10 @@ func vC01Rule(rule int, m vMeas, isFloat bool) (string, bool) {
 		vAssume(vAnd(lo >= -(1<<53), lo <= 1<<53))
 		vAssume(vAnd(hi >= -(1<<53), hi <= 1<<53))
 	}
+	return vC01RuleWith(rule, lo, hi, m)
+}
+
+func vC01RuleWith(rule, lo, hi int, m vMeas) (string, bool) {
 	switch rule {
 	case 0:
 		return "to=" + vItoa(lo) + "~" + vItoa(hi), vOr(m.lt(lo), m.gt(hi))
@@ -255,5 +259,77 @@ func H_C01_entry_url() {
 	tag := "C01 " + vSizeRules[rule] + "/string"
 	err := Url("http://h/p?F="+vPctEncode(x.(string)), NewRule().Set("F", text))
 	vAssert((err != nil) == want, tag+": Url verdict")
+	vReach("end")
+}
+
+// vRuneCount: the number of runes Go's decoder finds in s, malformed input included (every byte that does
+// not start a well-formed sequence is one rune). Written as a recurrence over suffixes with no-fork selects.
+func vRuneCount(s string) int {
+	n := len(s)
+	cnt := make([]int, n+5) // cnt[i] = runes in s[i:]
+	in := func(b byte, lo, hi byte) bool { return vAnd(b >= lo, b <= hi) }
+	for i := n - 1; i >= 0; i-- {
+		b0 := s[i]
+		var b1, b2, b3 byte
+		has1, has2, has3 := i+1 < n, i+2 < n, i+3 < n
+		if has1 {
+			b1 = s[i+1]
+		}
+		if has2 {
+			b2 = s[i+2]
+		}
+		if has3 {
+			b3 = s[i+3]
+		}
+		cont := func(b byte) bool { return in(b, 0x80, 0xBF) }
+		v2 := vAnd(has1, vAnd(in(b0, 0xC2, 0xDF), cont(b1)))
+		sec3 := vOr(vOr(vAnd(b0 == 0xE0, in(b1, 0xA0, 0xBF)), vAnd(b0 == 0xED, in(b1, 0x80, 0x9F))),
+			vAnd(vOr(in(b0, 0xE1, 0xEC), in(b0, 0xEE, 0xEF)), cont(b1)))
+		v3 := vAnd(has2, vAnd(sec3, cont(b2)))
+		sec4 := vOr(vOr(vAnd(b0 == 0xF0, in(b1, 0x90, 0xBF)), vAnd(b0 == 0xF4, in(b1, 0x80, 0x8F))), vAnd(in(b0, 0xF1, 0xF3), cont(b1)))
+		v4 := vAnd(has3, vAnd(sec4, vAnd(cont(b2), cont(b3))))
+		cnt[i] = 1 + vIteInt(v4, cnt[i+4], vIteInt(v3, cnt[i+3], vIteInt(v2, cnt[i+2], cnt[i+1])))
+	}
+	return cnt[0]
+}
+
+// strings of arbitrary bytes (malformed UTF-8 included): the measure is the rune count of Go's decoder
+func vC01Bytes(entry bool, max int) {
+	rule := vndChoice("rule", 8)
+	s := vndString("x", max)
+	vAssume(len(s) > 0)
+	m := vSignedMeas(int64(vRuneCount(s)))
+	text, want := vC01Rule(rule, m, false)
+	tag := "C01 " + vSizeRules[rule] + "/string of arbitrary bytes"
+	if !entry {
+		got := vViolated(func(b *strings.Builder) { vSizeFns[rule](b, text, "O", "F", reflect.ValueOf(s)) })
+		vAssert(got == want, tag+": violated iff the rune count is outside the set")
+	} else {
+		rm := NewRule().Set("F", text)
+		vAssert((Var(s, text) != nil) == want, tag+": Var verdict")
+		vAssert((Struct(&vSString{s}, rm) != nil) == want, tag+": Struct verdict")
+		vAssert((Url("http://h/p?F="+vPctEncode(s), rm) != nil) == want, tag+": Url verdict")
+	}
+	vReach("end")
+}
+
+func H_C01_fn_bytes()    { vC01Bytes(false, 4) }
+func H_C01_entry_bytes() { vC01Bytes(true, 3) }
+
+// a query key given twice: each occurrence is a value of its own and is measured
+func H_C01_entry_url_repeated() {
+	rule := vndChoice("rule", 8)
+	x, m, _ := vC01Value(vKString, 2)
+	lo, hi := vndInt("lo"), vndInt("hi")
+	text, want := vC01RuleWith(rule, lo, hi, m)
+	// the other occurrence holds "ab" (2 characters); whether it violates follows from the same bounds
+	_, want2 := vC01RuleWith(rule, lo, hi, vSignedMeas(2))
+	rm := NewRule().Set("F", text)
+	first := vndBool("first")
+	u := "http://h/p?F=ab&F=" + vPctEncode(x.(string))
+	if first {
+		u = "http://h/p?F=" + vPctEncode(x.(string)) + "&F=ab"
+	}
+	vAssert((Url(u, rm) != nil) == vOr(want, want2), "C01 "+vSizeRules[rule]+"/string: every occurrence of a repeated query key is measured")
 	vReach("end")
 }
